@@ -58,7 +58,11 @@ func (fr *Frame) execCall(st *State, c *ssa.CallCommon, res ssa.Value, pos token
 		}
 		// sound fallback: forget everything the callee may write; result unconstrained
 		ms := v.eng.modSetOf(f)
-		v.havocked = append(v.havocked, f.String())
+		if ms.All {
+			v.havocked = append(v.havocked, f.String()+" (ALL: "+strings.Join(ms.Why, "; ")+")")
+		} else {
+			v.havocked = append(v.havocked, f.String())
+		}
 		v.havocKeys(st, ms)
 		fr.freshResult(st, c, res)
 		return
@@ -196,7 +200,22 @@ func (fr *Frame) execAppend(st *State, c *ssa.CallCommon, res ssa.Value) {
 	freshVal := ite(and("(<= 0 "+j+")", "(< "+j+" "+ls+")"), sel(srow, "(ix "+soff+" "+j+")"),
 		ite(and("(<= "+ls+" "+j+")", "(< "+j+" "+newLen+")"), sel(trow, "(ix "+tOff+" (- "+j+" "+ls+"))"), v.smt.zeroOf(el)))
 	v.smt.assert(fmt.Sprintf("(forall ((j Int)) (! (= (select %s j) %s) :pattern ((select %s j))))", row, ite(inplace, inplaceVal, freshVal), row))
+	// ground instance for the first appended element (a consequence of the axiom above; gives E-matching a term to work with)
+	v.smt.assert(implies("(> "+tLen+" 0)", eq(sel(row, "(ix (s.off "+result+") "+ls+")"), sel(trow, "(ix "+tOff+" 0)"))))
 	v.setHeap(st, k, sto(E, "(s.arr "+result+")", row))
+	// prefix preservation stated over slice indices of the old and the new heap (consequence of the row axiom;
+	// triggers on either side so that facts about s[c] carry over to result[c] and back)
+	E2 := v.heap(st, k)
+	newEl := sel(sel(E2, "(s.arr "+result+")"), "(ix (s.off "+result+") c)")
+	oldEl := sel(sel(E, "(s.arr "+s+")"), "(ix (s.off "+s+") c)")
+	v.smt.assert(fmt.Sprintf("(forall ((c Int)) (! (=> (and (<= 0 c) (< c %s)) (= %s %s)) :pattern (%s) :pattern (%s)))", ls, newEl, oldEl, newEl, oldEl))
+	v.smt.assert(implies("(> "+tLen+" 0)", eq(sel(sel(E2, "(s.arr "+result+")"), "(ix (s.off "+result+") "+ls+")"), sel(trow, "(ix "+tOff+" 0)"))))
+	// appended part, both directions
+	newEl2 := sel(sel(E2, "(s.arr "+result+")"), "(ix (s.off "+result+") (+ "+ls+" d))")
+	srcEl := sel(trow, "(ix "+tOff+" d)")
+	v.smt.assert(fmt.Sprintf("(forall ((d Int)) (! (=> (and (<= 0 d) (< d %s)) (= %s %s)) :pattern (%s)))", tLen, newEl2, srcEl, srcEl))
+	newEl3 := sel(sel(E2, "(s.arr "+result+")"), "(ix (s.off "+result+") c)")
+	v.smt.assert(fmt.Sprintf("(forall ((c Int)) (! (=> (and (<= %s c) (< c %s)) (= %s %s)) :pattern (%s)))", ls, newLen, newEl3, sel(trow, "(ix "+tOff+" (- c "+ls+"))"), newEl3))
 	fr.vals[res] = Val{T: result}
 }
 
@@ -351,10 +370,14 @@ func (fr *Frame) applyContract(st *State, f *ssa.Function, fc *FuncContract, c *
 		g, extra := env.boolTerm(rq.Expr)
 		o := v.addObl(st, "requires", fmt.Sprintf("%s.%s", fnShort(f), clLabel(rq, k)), g, "precondition of "+fnShort(f)+": "+rq.Text, pickProps(rq, fr.propsOf()), pos)
 		o.Extra = extra
-		v.smt.assert(implies(st.reach, g))
+		o.Group = rq.Group
+		v.smt.assertG(rq.Group, implies(st.reach, g))
 	}
 	before := st.clone()
 	ms := v.eng.modSetOf(f)
+	if ms.All {
+		v.havocked = append(v.havocked, "contract call "+f.String()+" (ALL: "+strings.Join(ms.Why, "; ")+")")
+	}
 	v.havocKeys(st, ms)
 	// results
 	var results []Val
@@ -368,9 +391,9 @@ func (fr *Frame) applyContract(st *State, f *ssa.Function, fc *FuncContract, c *
 		env := fr.calleeEnv(st, before, f, fc, bound, results)
 		g, extra := env.boolTerm(en.Expr)
 		for _, x := range extra {
-			v.smt.assert(x)
+			v.smt.assertG(en.Group, x)
 		}
-		v.smt.assert(implies(st.reach, g))
+		v.smt.assertG(en.Group, implies(st.reach, g))
 	}
 	fr.copyOut(st, f, c, args, bound, locs, ms)
 	if res != nil {
@@ -531,16 +554,19 @@ func (v *FnVerifier) checkEnsures(fr *Frame, st *State, res []Val, pos token.Pos
 					st2.reach = and(st.reach, eq(t, num(int64(c))))
 					o := v.addObl(st2, "ensures", fmt.Sprintf("%s@ret%d.case%d", en.Label, retNo, c), g, en.Text+fmt.Sprintf("   [case %s == %d]", sp.Expr, c), pickProps(en, v.fc.Serves), pos)
 					o.Extra = extra
+					o.Group = en.Group
 				}
 				st2 := st.clone()
 				st2.reach = and(st.reach, not(and("(<= "+num(int64(sp.Lo))+" "+t+")", "(< "+t+" "+num(int64(sp.Hi))+")")))
 				o := v.addObl(st2, "ensures", fmt.Sprintf("%s@ret%d.rest", en.Label, retNo), g, en.Text+"   [remaining cases]", pickProps(en, v.fc.Serves), pos)
 				o.Extra = extra
+				o.Group = en.Group
 				continue
 			}
 		}
 		o := v.addObl(st, "ensures", fmt.Sprintf("%s@ret%d", clLabel(en, k), retNo), g, en.Text, pickProps(en, v.fc.Serves), pos)
 		o.Extra = extra
+		o.Group = en.Group
 	}
 	// reachability of this return (vacuity guard)
 	o := v.addObl(st, "cover", fmt.Sprintf("ret%d", retNo), "false", "return is reachable under the precondition", v.fc.Serves, pos)
